@@ -15,7 +15,7 @@ seeds=(); for s in "${sfx[@]}"; do seeds+=("$tag$s"); done
 sh=/tmp/shadow-$tag
 rm -rf $sh; mkdir -p $sh/verif
 git clone -q /repo $sh/repo >> $log 2>&1
-rsync -a --exclude .git --exclude '*.vo' --exclude '*.vos' --exclude '*.vok' --exclude '*.glob' --exclude '.*.aux' --exclude 'build/run' --exclude 'build/cov' --exclude replay /verif/ $sh/verif/
+rsync -a --exclude .git --exclude 'build/target/debug/incremental' --exclude '*.vo' --exclude '*.vos' --exclude '*.vok' --exclude '*.glob' --exclude '.*.aux' --exclude 'build/run' --exclude 'build/cov' --exclude replay /verif/ $sh/verif/
 git -C /verif archive HEAD | tar -x -m -C $sh/verif
 ( cd $sh/verif && rm -f coq/Makefile coq/Makefile.conf coq/.Makefile.d && python3 lib/gen_all.py >/dev/null 2>&1 )
 for s in "${sfx[@]}"; do
